@@ -3,6 +3,7 @@ package main
 import (
 	"fmt"
 	"go/types"
+	"strings"
 
 	"golang.org/x/tools/go/ssa"
 )
@@ -75,6 +76,16 @@ func (x *Exec) bigFromTC(w []*Term) TupleV {
 }
 
 func registerMoreIntrinsics() {
+	intrinsics["(*strings.Replacer).Replace"] = func(x *Exec, st *State, fr *Frame, fn *ssa.Function, a []Value) (Value, int) {
+		s := a[1].(*StrV)
+		for _, alt := range s.alts {
+			c, ok := altConcrete(alt)
+			if !ok || strings.ContainsAny(c, "~") {
+				panic(x.unsupported("strings.Replacer.Replace on a string that may contain an escape"))
+			}
+		}
+		return ret1(s) // gabs' dot-path replacer only rewrites ~0 / ~1 escapes
+	}
 	// textual renderings of times / durations feed log messages only
 	for _, n := range []string{"(time.Time).String", "(time.Time).Format", "(time.Time).GoString", "(time.Duration).String", "(time.Time).AppendFormat"} {
 		nn := n
